@@ -35,7 +35,8 @@ def _run_one(args):
     mod = importlib.import_module(f"props.{prop.lower()}")
     job = mod.jobs(tier)[idx]
     try:
-        return harness.run_job(job, seed=seed, replay_dir=os.path.join(EVDIR, "replays"))
+        return harness.run_job(job, seed=seed, replay_dir=os.path.join(EVDIR, "replays"),
+                               cross_check=(40 if tier == "thorough" else 0))
     except BaseException as e:  # never let a worker die silently
         import traceback
         return {"job": job.name, "prop": prop, "params": {}, "paths": 0, "decisions": 0, "queries": 0,
